@@ -371,6 +371,20 @@ func genFile(seed uint64, faulty bool) *Scenario {
 		}
 		w.Ops = append(w.Ops, last)
 	}
+	if pInvalid > 0 && fs.Layout != "link" && g.pct(15) {
+		// end with: good, broken, the very same good bytes again, the very same
+		// broken bytes again - the last breakage must be reported like the first
+		good, bad := g.filePart(0), g.filePart(0)
+		how := "rename"
+		if strings.HasPrefix(fs.Layout, "k8s") {
+			how = "k8s-swap"
+		}
+		w.Ops = append(w.Ops, Op{K: "quiesce", D: int64(g.in(2, 30)) * 60e9})
+		for i := 0; i < 2; i++ {
+			w.Ops = append(w.Ops, Op{K: how, Part: good, N: 1}, Op{K: "await-read"}, Op{K: "quiesce", D: 60e9},
+				Op{K: how, Part: bad, Str: "malformed", N: 1}, Op{K: "await-read"}, Op{K: "quiesce", D: 60e9})
+		}
+	}
 	if fs.Layout == "plain" && g.pct(25) {
 		// end with: new content, then - right behind the watcher's read of it -
 		// delete and recreate the very same bytes
@@ -922,6 +936,11 @@ func (r *Run) oracleC17() {
 		for _, cb := range r.cbs {
 			var de *file.DecoderErr
 			if cb.Kind == "err" && errors.As(cb.Err, &de) && cb.Enter >= lastGood {
+				found = true
+			}
+			// (under injected I/O faults the error the user is told about the
+			// file may be the read error instead of the decode error)
+			if cb.Kind == "err" && cb.Err != nil && cb.Enter >= lastGood && r.sim.LastFault > 0 && strings.Contains(cb.Err.Error(), "input/output error") {
 				found = true
 			}
 		}
